@@ -12,8 +12,10 @@
                  For a write inside `blast()` the script says on which side of the statement
                  `flagcritical = 1` it happens (`body` before, `final` after): the 1024-byte buffering of
                  `smtpto` is not modelled, so *which bytes* such a write carries is not known to the
-                 model. The driver's oracle does not trust this label: it decides from the bytes of the
-                 attempted write whether it carries the end of the message (`Spec.RemoteVerdict.critWrite`).
+                 model. The driver computes the label from the bytes of the failing write
+                 (`Spec.RemoteVerdict.flagWrite`; the client's variable is never read), and its oracle
+                 decides, again from those bytes, whether the write carries the end of the message
+                 (`Spec.RemoteVerdict.critWrite`).
 
   Two layers:
     * `frames`  — how `smtpcode()` delimits replies in the stream (byte automaton `cnext`, one state
